@@ -27,6 +27,25 @@ def c02_canon(l):
     return tuple(out)
 
 
+def store_canon(block):
+    # a case block: configuration + op lines (observations are outputs, not inputs)
+    ls = [l for l in block.split("\n") if l.startswith("op ") or l.startswith("case ")]
+    if ls and ls[0].startswith("case "):
+        ls[0] = " ".join(ls[0].split()[3:])
+    return "\n".join(ls)
+
+
+def store_nontrivial(block):
+    return "op delete" in block or "op restart" in block or block.count("op append") >= 2
+
+
+STORE_TB = [KERNEL, HARNESS_TB,
+            "Store.Seq is a hand model tied by op-sequence correspondence only (model observation = real Store observation on every observe/delete of every generated history)",
+            "modelled, not verified: go-datastore (in-memory flavours plain / context-aware with batches + read transactions), golang-lru 2Q caches (model is cache-transparent), hash collision-freeness"]
+STORE_ASSUME = ["chain headers only (one header per height)", "no datastore write faults in these histories (faults: C06)",
+                "sequential delete path (< 10000 headers per DeleteRange)",
+                "cache size 1 cannot be constructed (lru.New2Q rejects it), sizes 2, 3, 512 are used"]
+
 PROPS = {
     "C01": dict(
         props_files=["GoHeader/Props/C01.lean"],
@@ -52,5 +71,26 @@ PROPS = {
         exhaustive=True,
         trusted_base=[KERNEL, HARNESS_TB, "VerifyRange is hand-modelled (loop); tied by differential execution only"],
         assumptions=["time.Now() margins as for C01", "type-level Verify scripted per untrusted header"],
+    ),
+    "C04": dict(
+        props_files=["GoHeader/Props/C04.lean"], gen=[], block=True,
+        canon=store_canon, nontrivial=store_nontrivial,
+        rule="seeded random op histories (append contiguous/gapped/reversed/repeated/arbitrary, sync, observe, DeleteRange aimed at the valid shapes and just off them, restart) "
+             "over batch {1,2,3,64} x cache {2,3,512} x datastore {plain, context-aware}; distinct = distinct (config, op list); non-trivial = has a delete, a restart or >= 2 appends",
+        trusted_base=STORE_TB, assumptions=STORE_ASSUME,
+    ),
+    "C08": dict(
+        props_files=["GoHeader/Props/C08.lean"], gen=[], block=True,
+        canon=store_canon, nontrivial=lambda b: "op delete" in b,
+        rule="as C04 with more deletes (35%), ranges touching unflushed headers (batch 64), whole-chain deletes, and a continuation (append, sync, restart) after every history; "
+             "distinct = distinct (config, op list); non-trivial = contains a DeleteRange",
+        trusted_base=STORE_TB, assumptions=STORE_ASSUME,
+    ),
+    "C14": dict(
+        props_files=["GoHeader/Props/C14.lean"], gen=[], block=True,
+        canon=store_canon, nontrivial=lambda b: "op delete" in b and "op ondelete" in b,
+        rule="as C08 with 1-3 scripted OnDelete handlers failing (error or panic) at random call indexes; the harness logs (handler, height, readable-at-call) for every invocation; "
+             "distinct = distinct (config, op list); non-trivial = has a handler and a DeleteRange",
+        trusted_base=STORE_TB, assumptions=STORE_ASSUME,
     ),
 }
